@@ -6,6 +6,18 @@ NOTES = ('Static analysis only: every verdict is computed from the ast of /repo/
          'Exit 2 + ANALYSIS-ERROR means the analysis could not decide (never a verdict).')
 
 CHECKS = {
+    'C15': {
+        'level': 'fd_weights_all / fd_weights on symbolic distinct nodes (2..4, thorough 5) and symbolic expansion point equal the closed-form Lagrange-derivative '
+                 'weights for all rows n < len(x) (rational function identities), under several ordering hypotheses of the nodes. Conditioning not decided.',
+        'note': 'Node counts beyond 5 are not explored (the recursion is uniform in the node count). Trusted: exact rational-function algebra.',
+        'technique': 'abstract interpretation of the Fornberg recursion over exact rational functions; comparison with the closed form of the definition',
+    },
+    'C16': {
+        'level': 'Index arithmetic of fd_derivative for symbolic grids (minimal length and longer), n 1..4(6), m 1..3(4): every output is the weights of x[S] '
+                 'about x[t] applied to fx[S] with the same S, >= 2*(n//2+m)+1 nodes, each index written once. Exactness on polynomials then follows from C15.',
+        'note': 'Conditional on C15. Rounding / conditioning not decided.',
+        'technique': 'abstract interpretation with array views carrying exact index sets; fd_weights calls intercepted (who-may-call / argument agreement rule)',
+    },
     'C11': {
         'level': 'Every misuse listed in C11 is run in the abstract interpreter and must end in ValueError on every path through undetermined '
                  'branches (complex x / complex valued f for complex-step methods in all five classes, on fresh and on previously used objects; '
